@@ -545,6 +545,9 @@ func histBase(cf *hxlib.CommonFlags, cfg *sessCfg, steps []*histStep) map[string
 		d := map[string]any{"call": k, "relation_to_previous": st.rel, "prog": st.pc.name, "kind": st.pc.kind,
 			"inputs_hex": ins, "and_levels": st.pc.circ.Stats[circuit.NumLevels], "wires": st.pc.circ.NumWires,
 			"gates": st.pc.circ.NumGates}
+		if st.repr != nil {
+			d["inputs"] = reprDetail(st.pc.circ, st.repr)
+		}
 		if st.pc.src != "" {
 			d["src"] = st.pc.src
 		} else {
@@ -552,10 +555,14 @@ func histBase(cf *hxlib.CommonFlags, cfg *sessCfg, steps []*histStep) map[string
 		}
 		calls = append(calls, d)
 	}
+	hx := cfg.hx
+	if hx == "" {
+		hx = "hist"
+	}
 	return map[string]any{
-		"case": cfg.idx, "seed": cf.Seed, "n": cf.N, "tier": cf.Tier, "harness_mode": "hist", "parties": len(cfg.inputs),
+		"case": cfg.idx, "seed": cf.Seed, "n": cf.N, "tier": cf.Tier, "harness_mode": hx, "parties": len(cfg.inputs),
 		"mode": cfg.mode, "calls": len(steps), "history": calls,
-		"rerun": fmt.Sprintf("hx-c10 hist -seed %d -n %d -only %d -tier %s", cf.Seed, cf.N, cfg.idx, cf.Tier),
+		"rerun": fmt.Sprintf("hx-c10 %s -seed %d -n %d -only %d -tier %s", hx, cf.Seed, cf.N, cfg.idx, cf.Tier),
 	}
 }
 
@@ -669,7 +676,7 @@ func evaluateHist(o *hxlib.Out, cf *hxlib.CommonFlags, cfg *sessCfg, steps []*hi
 			}
 		}
 		// (1) every party's result of THIS call equals Compute of THIS circuit
-		want, err := c.Compute(st.inputs)
+		want, err := c.Compute(computeInputs(st.inputs, st.repr))
 		if err != nil {
 			o.Fail("c10-compute-error", with(base, "call", k, "err", err.Error()))
 			return
@@ -679,7 +686,7 @@ func evaluateHist(o *hxlib.Out, cf *hxlib.CommonFlags, cfg *sessCfg, steps []*hi
 			if !bigsEqual(got, want) {
 				d := with(base, "call", k, "relation_to_previous", st.rel, "party", p, "got", hxlib.BigsString(got),
 					"want", hxlib.BigsString(want))
-				if k > 0 {
+				if k > 0 && st.repr == nil {
 					// what the previous call's circuit gives on these inputs (diagnosis only)
 					if pw, e := steps[k-1].pc.circ.Compute(st.inputs); e == nil {
 						d["previous_circuit_on_these_inputs"] = hxlib.BigsString(pw)
@@ -828,7 +835,12 @@ func histOp(steps []*histStep, so *sessOut, need int, res func(k, p int) ([]*big
 		pools = append(pools, wordsHex(s.A, k)+":"+wordsHex(s.B, k)+":"+wordsHex(s.C, k))
 	}
 	var sb strings.Builder
-	fmt.Fprintf(&sb, "c10 hist %s", strings.Join(pools, ","))
+	ints := steps[0].repr != nil // integer inputs: `histi`, per party `<width>:<signed decimal>;...`
+	if ints {
+		fmt.Fprintf(&sb, "c10 histi %s", strings.Join(pools, ","))
+	} else {
+		fmt.Fprintf(&sb, "c10 hist %s", strings.Join(pools, ","))
+	}
 	for ci, st := range steps {
 		c := st.pc.circ
 		var sizes, xs, rnd []string
@@ -853,7 +865,11 @@ func histOp(steps []*histStep, so *sessOut, need int, res func(k, p int) ([]*big
 				rnd = append(rnd, hxlib.BitsString(b))
 			}
 		}
-		fmt.Fprintf(&sb, " %s %s %s %s", strings.Join(sizes, ","), hxlib.CircLine(c), strings.Join(xs, ","), strings.Join(rnd, ","))
+		xf := strings.Join(xs, ",")
+		if ints {
+			xf = reprSpecs(st.repr)
+		}
+		fmt.Fprintf(&sb, " %s %s %s %s", strings.Join(sizes, ","), hxlib.CircLine(c), xf, strings.Join(rnd, ","))
 		if hasOR(c) {
 			break
 		}
